@@ -324,36 +324,48 @@ static void Array_Rem(var self, var obj) {
   throw(ValueError, "Object %$ not in Array!", obj);
 }
 
-static void Array_Push(var self, var obj) {
-  struct Array* a = self;
+static void Array_Reserve_One(struct Array* a) {
   a->nitems++;
   Array_Reserve_More(a);
-  Array_Alloc(a, a->nitems-1);
-  assign(Array_Item(a, a->nitems-1), obj);
+  a->nitems--;
+}
+
+static void Array_Push(var self, var obj) {
+  struct Array* a = self;
+  Array_Reserve_One(a);
+  Array_Alloc(a, a->nitems);
+  assign(Array_Item(a, a->nitems), obj);
+  a->nitems++;
 }
 
 static void Array_Push_At(var self, var obj, var key) {
   struct Array* a = self;
-  a->nitems++;
-  Array_Reserve_More(a);
   
   int64_t i = c_int(key);
-  i = i < 0 ? a->nitems+i : i;
+  i = i < 0 ? (int64_t)a->nitems+1+i : i;
   
 #if CELLO_BOUND_CHECK == 1
-  if (i < 0 or i >= (int64_t)a->nitems) {
+  if (i < 0 or i > (int64_t)a->nitems) {
     throw(IndexOutOfBoundsError,
       "Index '%i' out of bounds for Array of size %i.", key, $I(a->nitems));
     return;
   }
 #endif
   
-  memmove((char*)a->data + Array_Step(a) * (i+1),
-          (char*)a->data + Array_Step(a) * (i+0), 
-          Array_Step(a) * ((a->nitems-1) - i));
+  /* construct the new item in the spare slot first, then move it into place */
+  Array_Reserve_One(a);
+  Array_Alloc(a, a->nitems);
+  assign(Array_Item(a, a->nitems), obj);
   
-  Array_Alloc(self, i);
-  assign(Array_Item(a, i), obj);
+  for (size_t j = a->nitems; j > (size_t)i; j--) {
+    char* p0 = (char*)a->data + Array_Step(a) * (j-1);
+    char* p1 = (char*)a->data + Array_Step(a) * (j-0);
+    for (size_t b = 0; b < Array_Step(a); b++) {
+      char c = p0[b]; p0[b] = p1[b]; p1[b] = c;
+    }
+  }
+  
+  a->nitems++;
 }
 
 static void Array_Pop(var self) {
